@@ -122,3 +122,53 @@ Proof. exists 2%nat, 3%nat, 2%nat, 1%nat, 1%nat. repeat split; lia. Qed.
 Lemma eager_lazy_blocks_agree {K : Fld} (k : nat -> nat -> car) r c p q :
   meq p q (sub r c (fun i j => k i j)) (fun i j => k (r + i)%nat (c + j)%nat).
 Proof. intros i j _ _. reflexivity. Qed.
+
+(* ---- lazily evaluated kernels with active_dims: because evaluate_kernel puts active_dims back, ANY
+   interleaving of building lazy tensors and evaluating them (on one shared kernel object) returns, for
+   every evaluation, the eager evaluation under the active_dims the kernel was constructed with *)
+From Coq Require Import List QArith Qcanon.
+Import ListNotations.
+
+Lemma nth_error_map_some {A B} (f : A -> B) l i x : nth_error l i = Some x -> nth_error (map f l) i = Some (f x).
+Proof.
+  revert i. induction l as [|y r IH]; intros [|i]; cbn [nth_error map]; try discriminate.
+  - intros H. injection H as <-. reflexivity.
+  - apply IH.
+Qed.
+Lemma nth_error_map_none {A B} (f : A -> B) l i : nth_error l i = None -> nth_error (map f l) i = None.
+Proof.
+  revert i. induction l as [|y r IH]; intros [|i]; cbn [nth_error map]; try discriminate; try reflexivity.
+  apply IH.
+Qed.
+
+Lemma lazy_run_restoring {K : Fld} (kf : M -> M -> M) a ops : forall ts,
+  lazy_run kf true a ts ops = eager_run kf a (map (fun L => kf (fst L) (snd L)) ts) ops.
+Proof.
+  induction ops as [|o r IH]; intros ts; [reflexivity|].
+  destruct o as [X1 X2|i]; cbn [lazy_run eager_run].
+  - rewrite IH. rewrite map_app. reflexivity.
+  - destruct (nth_error ts i) as [L|] eqn:E.
+    + rewrite (nth_error_map_some _ _ _ _ E). cbn [evaluate_kernel]. rewrite IH. reflexivity.
+    + rewrite (nth_error_map_none _ _ _ E). apply IH.
+Qed.
+
+Lemma lazy_eq_eager {K : Fld} (kf : M -> M -> M) a ops : lazy_run kf true a [] ops = eager_run kf a [] ops.
+Proof. apply (lazy_run_restoring kf a ops []). Qed.
+
+(* without the restoration the SECOND use of the kernel object sees all columns: kernel = product of the first
+   active coordinates, active_dims = [1], one point (0, 1) *)
+Definition ex_kf : @M QcF -> @M QcF -> @M QcF := fun X1 X2 i j => (X1 i 0%nat * X2 j 0%nat)%Qc.
+Definition ex_X : @M QcF := fun _ j => if Nat.eqb j 1 then 1%Qc else 0%Qc.
+Definition ex_ops : list (@kop QcF) := [KBuild ex_X ex_X; KEval 0; KBuild ex_X ex_X; KEval 1].
+Lemma lazy_not_restoring_refuted :
+  exists (kf : @M QcF -> @M QcF -> @M QcF) a ops,
+    nth 1 (lazy_run kf false a [] ops) mzero 0%nat 0%nat <> nth 1 (eager_run kf a [] ops) mzero 0%nat 0%nat /\
+    nth 0 (lazy_run kf false a [] ops) mzero 0%nat 0%nat = nth 0 (eager_run kf a [] ops) mzero 0%nat 0%nat.
+Proof.
+  exists ex_kf, (Some [1%nat]), ex_ops. split; [|reflexivity].
+  vm_compute. discriminate.
+Qed.
+Lemma ex_lazy_ops_nonvacuous :
+  length (lazy_run ex_kf true (Some [1%nat]) [] ex_ops) = 2%nat /\
+  nth 1 (lazy_run ex_kf true (Some [1%nat]) [] ex_ops) mzero 0%nat 0%nat = 1%Qc.
+Proof. split; reflexivity. Qed.
